@@ -144,6 +144,7 @@ class Sym:
         self.active = []
         self.concrete_loops = False
         self.loop_cut = None        # bounded exploration: drop (do not refuse) iterations beyond this count
+        self.use_lemmas = True      # class invariants proven by induction (lib/invariants.py) may be used as summaries
 
     # ------------------------------------------------------------------ entry
     def run(self, fid, this=None, args=None, state=None):
@@ -182,6 +183,12 @@ class Sym:
     def call_body(self, f, this, args, st, captures=None):
         if self.depth >= self.max_depth:
             raise Unsupported(f'inlining depth exceeded at {f["id"]}')
+        if f['name'] == 'size' and this is not None and self.use_lemmas:
+            # a scope's size() that reads a counter proven equal to the size of its store (lib/invariants.py) is answered by the store
+            import invariants
+            lem = invariants.size_lemmas(self.F).get(f['id'])
+            if lem is not None:
+                return self.call_body(self.F.fn[lem[1]], ('fld', this, lem[0]), [], st)
         key = None
         same_fn = [env for env in st.envs if env.get('__fn__') == f['id']]
         if same_fn and not f.get('params') and f['id'].endswith(' const') and this is not None and len(same_fn) < 4 \
